@@ -547,7 +547,7 @@ func TestC17(t *testing.T) {
 	r := run.New(t, "C17", "exploration")
 	defer r.Finish()
 	race := os.Getenv("VERIF_RACE") == "1"
-	r.Rule("one evaluation = one generated history (20-150 identify reports / connection closes / late reports / redundant disconnects / virtual minutes) run on a fresh real observedaddrs.Manager, with AddrsFor(every local listen address), Addrs(0), Addrs(1), Addrs(k) compared with a from-scratch recomputation after every event; non-trivial = at least one address became advertised AND at least one advertised address was withdrawn (close or changed report) in that history; distinct = distinct digest of (listen set, connections, events)")
+	r.Rule("one evaluation = one generated history (20-150 identify reports / connection closes / late reports / redundant disconnects / virtual minutes) run on a fresh real observedaddrs.Manager, with AddrsFor(every listen / resolved listen address and every connection's own local address) and Addrs(0|1|2|3|5) compared with a from-scratch recomputation after every event (1 history in 8 additionally with two concurrent readers whose answers must fit the state before or after the event in flight); non-trivial = at least one address became advertised AND at least one advertised address was withdrawn (close or changed report) in that history; distinct = distinct digest of (listen set, connections, events)")
 	r.Assume(
 		"listen addresses are fixed for the lifetime of a history (the statement does not say whether 'arriving at a listen address' is judged at report time or at query time)",
 		"transport consistency is judged on the thin waist: same IP version and same TCP/UDP; upper layers (quic-v1 vs webtransport) of the reported address are not compared",
@@ -559,6 +559,11 @@ func TestC17(t *testing.T) {
 		"IPv4-mapped IPv6 remotes, zone-scoped addresses and non-IP remote addresses are outside the population",
 	)
 
+	r.Extra("population", map[string]any{
+		"remote_ips": fmt.Sprint(remoteV4, remoteV6), "interfaces": fmt.Sprint(ifaceV4, ifaceV6),
+		"observed_pool": fmt.Sprint(poolV4, poolV6), "activation_thresholds": "quick 1,2,4; thorough 1,2,3,4",
+		"listen": "per family none/unspecified/specific(1-2 IPs) x TCP, QUIC, WebTransport(+certhash) on ports 4001/4002, optional /p2p-circuit",
+	})
 	total := r.Pick(3000, 150000)
 	if race {
 		total = r.Pick(600, 3000)
